@@ -170,12 +170,6 @@ def Rules.boundsOk (r : Rules) (n : Nat) : Bool := Hive.Serix.boundsOk r.min r.m
 /-- `ensureOrdering` of encodeMap/decodeMap. -/
 def Rules.ordered (r : Rules) : Rules := { r with lex := true, autoSort := true }
 
-inductive FKind where
-  | plain
-  | optional   -- `optional` tag: uint32 length marker, 0 = nil
-  | embedded   -- anonymous struct / *struct without `inlined`: fields are flattened into the parent
-deriving Repr, DecidableEq
-
 mutual
 inductive Ty where
   | bool
@@ -193,9 +187,13 @@ inductive Ty where
   | struct (code : Option Code) (fs : Fields)
   | ptr (t : Ty)
   | iface (den : Den) (alts : Alts)
+/-- Struct fields in serix order.  `cons opt t`: a field of type `t`, `opt`: tagged `optional` (a
+uint32 length marker precedes it, 0 = nil).  `emb ptr fs`: an anonymous struct (`ptr`: pointer to
+struct) without `inlined`, whose fields `fs` are flattened into the parent. -/
 inductive Fields where
   | nil
-  | cons (k : FKind) (t : Ty) (rest : Fields)
+  | cons (opt : Bool) (t : Ty) (rest : Fields)
+  | emb (ptr : Bool) (fs : Fields) (rest : Fields)
 inductive Alts where
   | nil
   | cons (code : Nat) (t : Ty) (rest : Alts)
@@ -426,6 +424,10 @@ def mustOccurOk (r : Rules) (e : Ty) (vs : List Val) : Res Unit :=
     let codes ← mapMRes (e.codeOf ·) vs
     require (r.mustOccur.all (codes.contains ·))
 
+/-- `checkArrayMustOccur` is only called with validation. -/
+def mustOccurIf (validation : Bool) (r : Rules) (e : Ty) (vs : List Val) : Res Unit :=
+  if validation then mustOccurOk r e vs else .ok ()
+
 /-- Pointers can only be encoded when they point to a struct or an array
 (`encodeBasedOnType`, `case reflect.Ptr`). -/
 def Ty.ptrTarget : Ty → Bool
@@ -448,6 +450,20 @@ def mapKeysOk (kvs : List Val) : Bool :=
   match optMapM kvKey kvs with
   | some ks => nodupB ks
   | none => false
+
+/-- `encodeMapKVPair`: key bytes followed by value bytes. -/
+def encKV (ek ev : Val → Res Bytes) : Val → Res Bytes
+  | .kv a b => do
+    let x ← ek a
+    let y ← ev b
+    pure (x ++ y)
+  | _ => .err
+
+/-- `decodeMapKVPair`. -/
+def decKV (dk dv : Bytes → Res (Val × Nat)) (b : Bytes) : Res (Val × Nat) := do
+  let (kk, n1) ← dk b
+  let (vv, n2) ← dv (b.drop n1)
+  pure (.kv kk vv, n1 + n2)
 
 /-! ## Encode -/
 
@@ -481,24 +497,19 @@ def enc : Ty → Bool → Val → Opts → Res Bytes
   | .time, _, .i x, _ => .ok (leBytes 8 (timeToU64 x))
   | .slice lp r e, pre, .l vs, o => do
     require (!(pre && o.validation) || r.boundsOk vs.length)
-    if o.validation then mustOccurOk r e vs
+    mustOccurIf o.validation r e vs
     let data ← mapMRes (fun v => enc e true v o) vs
     encSeq lp r o data
   | .array n lp r e, pre, .l vs, o => do
     if vs.length ≠ n then .err else
     require (!(pre && o.validation) || r.boundsOk vs.length)
-    if o.validation then mustOccurOk r e vs
+    mustOccurIf o.validation r e vs
     let data ← mapMRes (fun v => enc e true v o) vs
     encSeq lp r o data
   | .map lp r k v, _, .l kvs, o => do
     if !mapKeysOk kvs then .err else
     require (!o.validation || r.boundsOk kvs.length)
-    let data ← mapMRes (fun e => match e with
-      | .kv a b => do
-        let x ← enc k true a o
-        let y ← enc v true b o
-        pure (x ++ y)
-      | _ => .err) kvs
+    let data ← mapMRes (encKV (fun a => enc k true a o) (fun b => enc v true b o)) kvs
     encSeq lp r.ordered o data
   | .struct code fs, _, .l vs, o => do
     let body ← encFields fs vs o
@@ -512,11 +523,11 @@ def enc : Ty → Bool → Val → Opts → Res Bytes
 /-- `encodeStructFields`. -/
 def encFields : Fields → List Val → Opts → Res Bytes
   | .nil, [], _ => .ok []
-  | .cons .plain t rest, v :: vs, o => do
+  | .cons false t rest, v :: vs, o => do
     let b ← enc t true v o
     let bs ← encFields rest vs o
     pure (b ++ bs)
-  | .cons .optional t rest, v :: vs, o => do
+  | .cons true t rest, v :: vs, o => do
     let b ← (match v with
       | .nil => Res.ok (leBytes 4 0)
       | _ => do
@@ -525,16 +536,16 @@ def encFields : Fields → List Val → Opts → Res Bytes
         pure (leBytes 4 fb.length ++ fb))
     let bs ← encFields rest vs o
     pure (b ++ bs)
-  | .cons .embedded t rest, v :: vs, o => do
-    let b ← encEmb t v o
+  | .emb false fs rest, .l ws :: vs, o => do
+    -- the fields of the embedded struct are written in place, without its own code
+    let b ← encFields fs ws o
     let bs ← encFields rest vs o
     pure (b ++ bs)
-  | _, _, _ => .err
-
-/-- An embedded struct (or pointer to one): its fields are written in place, without its own code. -/
-def encEmb : Ty → Val → Opts → Res Bytes
-  | .struct _ fs, .l vs, o => encFields fs vs o
-  | .ptr (.struct _ fs), .some (.l vs), o => encFields fs vs o
+  | .emb true fs rest, .some (.l ws) :: vs, o => do
+    -- a nil embedded pointer is refused (fix 2f92ee4)
+    let b ← encFields fs ws o
+    let bs ← encFields rest vs o
+    pure (b ++ bs)
   | _, _, _ => .err
 
 /-- `encodeInterface`: the dynamic type must be registered for the interface. -/
@@ -598,7 +609,7 @@ def dec : Ty → Bytes → Opts → Res (Val × Nat)
     let (count, w) ← readLen lp b
     let (items, n) ← decSeqBody (fun b => dec e b o) r o count w b
     let vs := items.map (·.1)
-    if o.validation then mustOccurOk r e vs
+    mustOccurIf o.validation r e vs
     pure (.l vs, n)
   | .array len lp r e, b, o => do
     let (count, w) ← readLen lp b
@@ -606,14 +617,11 @@ def dec : Ty → Bytes → Opts → Res (Val × Nat)
     if count ≠ len then .err else
     let (items, n) ← decSeqBody (fun b => dec e b o) r o count w b
     let vs := items.map (·.1)
-    if o.validation then mustOccurOk r e vs
+    mustOccurIf o.validation r e vs
     pure (.l vs, n)
   | .map lp r k v, b, o => do
     let (count, w) ← readLen lp b
-    let (items, n) ← decSeqBody (fun b => do
-        let (kk, n1) ← dec k b o
-        let (vv, n2) ← dec v (b.drop n1) o
-        pure (.kv kk vv, n1 + n2)) r.ordered o count w b
+    let (items, n) ← decSeqBody (decKV (fun b => dec k b o) (fun b => dec v b o)) r.ordered o count w b
     -- "map entry with key already exists"
     require (nodupB (valKeys items))
     pure (.l (items.map (·.1)), n)
@@ -631,11 +639,11 @@ def dec : Ty → Bytes → Opts → Res (Val × Nat)
 /-- `decodeStructFields`. -/
 def decFields : Fields → Bytes → Opts → Res (List Val × Nat)
   | .nil, _, _ => .ok ([], 0)
-  | .cons .plain t rest, b, o => do
+  | .cons false t rest, b, o => do
     let (v, n) ← dec t b o
     let (vs, m) ← decFields rest (b.drop n) o
     pure (v :: vs, n + m)
-  | .cons .optional t rest, b, o => do
+  | .cons true t rest, b, o => do
     if b.length < 4 then .err else
     let len := leNat (b.take 4)
     if len == 0 then do
@@ -646,19 +654,10 @@ def decFields : Fields → Bytes → Opts → Res (List Val × Nat)
       if n ≠ len then .err else
       let (vs, m) ← decFields rest (b.drop (4 + n)) o
       pure (v :: vs, 4 + n + m)
-  | .cons .embedded t rest, b, o => do
-    let (v, n) ← decEmb t b o
+  | .emb ptr fs rest, b, o => do
+    let (ws, n) ← decFields fs b o
     let (vs, m) ← decFields rest (b.drop n) o
-    pure (v :: vs, n + m)
-
-def decEmb : Ty → Bytes → Opts → Res (Val × Nat)
-  | .struct _ fs, b, o => do
-    let (vs, n) ← decFields fs b o
-    pure (.l vs, n)
-  | .ptr (.struct _ fs), b, o => do
-    let (vs, n) ← decFields fs b o
-    pure (.some (.l vs), n)
-  | _, _, _ => .err
+    pure ((if ptr then .some (.l ws) else .l ws) :: vs, n + m)
 
 def decAlts : Alts → Nat → Bytes → Opts → Res (Val × Nat)
   | .nil, _, _, _ => .err
